@@ -31,8 +31,12 @@ CLAIM = dict(cat="proof", design="§3 C04, §8 D8/O1",
         "(b) conservation is proved for flux phase + conserved update given zeroed accumulators; that the accumulators are zero and that each phase sees the fields the previous phase "
         "wrote is the phase structure of C10/C07; round-off ('up to floating-point round-off') is measured (<= 1e-12 of sum|.|), not bounded by proof; "
         "(c) the reflecting-wall hypothesis is discharged for HLLC only between Mach -2/(gamma-1) (vacuum opening) and 1.5 at the wall, on the limited face state. "
-        "Single subgrid on a periodic axis: sweeps are right (modelled, tied) but the task-based driver hangs there (D2, C07). "
-        "Oddities O1 (right-cell momentum limiter tests the left cell's momentum; ghost version has dt instead of dt^2) are part of the model; they change the common factor only and cannot break conservation.",
+        "A single subgrid on a periodic axis is its own neighbour: the pair sweep then runs inside one subgrid (modelled, tied, covered by the layouts tested; the scheduling defect D2 there is C07's). "
+        "Oddities of Hydro.hpp that are part of the model: the right-cell momentum limiter tests the LEFT cell's momentum (line 514) and the boundary version has dt instead of dt^2 (line 679); "
+        "they change the common factor only and cannot break conservation (the theorems hold for any factor). Behavioural finding reported to the coordinator: with line 514 as it is, a supersonic "
+        "left cell next to a right cell at rest gets fluxfac = 0 (gamma=5/3, rho=P=1, vL=(3,0,0), vR=0: all five fluxes 0; the mirror image transports mass 3): the scheme is conservative but not mirror symmetric. "
+        "Mutants (scratch worktree): fluxfac on one side only and += on both cells -> concrete failing cell pair and drifting totals; fluxfac on the mass flux only and wrong stride/start in the y pair flux sweep "
+        "-> correspondence/face-list break, reported without failing input (both keep the totals: the property is insensitive to them, C10 catches the sweep mutants with layouts that disagree).",
    technique="Coq: index arithmetic (lia/nia) for the face bijection, induction over face lists, real-number algebra; bit-exact binary64 correspondence; logging stand-in class through the include guard")
 
 MPI = ["-Wl,--no-as-needed", "-lmpi_cxx", "-lmpi"]
